@@ -307,25 +307,8 @@ class SymVC(BaseVC):
         return self.loader.cls(spec, **kw)
 
     def float_class(self, spec):
-        """symbolic stand-in for a float subclass of the repository (JulianDate, ScenarioTime): instances box a value,
-        `float(box)` yields it, and every method/operator is the extracted real method of the class."""
-        key = ("floatcls", spec)
-        if key in self.loader.cache:
-            return self.loader.cache[key]
-        flat = self.loader.cls(spec)
-
-        def _new(cls, v=0.0):
-            o = object.__new__(cls)
-            o._v = v._pyvc_value() if hasattr(v, "_pyvc_value") else v
-            return o
-        # reflected operators are not overridden by the repository classes: Python falls back to plain float arithmetic
-        refl = {"__radd__": lambda self, o: o + self._v, "__rsub__": lambda self, o: o - self._v, "__rmul__": lambda self, o: o * self._v,
-                "__rtruediv__": lambda self, o: o / self._v, "__neg__": lambda self: -self._v, "__abs__": lambda self: abs(self._v)}
-        ns = {"__new__": _new, "_pyvc_value": lambda self: self._v, "__repr__": lambda self: f"{flat.__name__}<{self._v}>"}
-        ns.update({k: v for k, v in refl.items() if not hasattr(flat, k)})
-        Box = type(flat.__name__, (flat,), ns)
-        self.loader.cache[key] = Box
-        return Box
+        """boxed float subclass of the repository (JulianDate, ScenarioTime): see extract.Loader.float_box"""
+        return self.loader.float_box(spec)
 
     def new(self, spec, **attrs):
         C = self.loader.cls(spec)
